@@ -16,6 +16,8 @@ Inductive endpoint :=
 Inductive shape := SPlain | SOpt | SList | SSet.   (* T | Optional[T] | List[T] | Set[T] *)
 
 Record field := { f_name : string; f_shape : shape; f_ep : endpoint; f_default : bool }.
+(* c_bases: the names of the classes on the MRO after the class itself (linear in the supported grammar), nearest first;
+   names that are not classes of the model are unmapped intermediate classes (which declare no fields) *)
 Record cls := { c_name : string; c_module : string; c_bases : list string; c_fields : list field }.
 Definition cmodel := list cls.
 
@@ -25,7 +27,7 @@ Definition class_names (M : cmodel) : list string := map c_name M.
 Definition field_names (fs : list field) : list string := map f_name fs.
 Definition is_public (f : field) : bool := negb (prefix "_" (f_name f)).
 
-(* the declared parent: the (single, in the supported grammar) base that is itself part of the model *)
+(* the parent: the first class on the MRO that is itself part of the model (unmapped intermediate classes are skipped) *)
 Definition parent_of (M : cmodel) (c : cls) : option cls :=
   match flat_map (fun b => match find_cls M b with Some p => [p] | None => [] end) (c_bases c) with
   | p :: _ => Some p
@@ -84,8 +86,6 @@ Definition field_in_grammar (M : cmodel) (f : field) : bool :=
 Definition wf_class (M : cmodel) (c : cls) : bool :=
   str_nodup (field_names (c_fields c))
   && forallb (field_in_grammar M) (c_fields c)
-  && (List.length (c_bases c) <=? 1)%nat
-  && forallb (is_mapped M) (c_bases c)
   && terminates (List.length M) M c.
 
 Definition wfM (M : cmodel) : bool :=
@@ -97,6 +97,15 @@ Fixpoint parents_first (M : cmodel) (seen : list string) (order : list cls) : bo
   | [] => true
   | c :: r => match parent_of M c with Some p => str_in (c_name p) seen | None => true end
               && parents_first M (c_name c :: seen) r
+  end.
+(* what ORMatic's inheritance graph orders: only the edge from a class to its DIRECT base, when that base is mapped *)
+Definition direct_parent (M : cmodel) (c : cls) : option cls :=
+  match c_bases c with b :: _ => find_cls M b | [] => None end.
+Fixpoint direct_parents_first (M : cmodel) (seen : list string) (order : list cls) : bool :=
+  match order with
+  | [] => true
+  | c :: r => match direct_parent M c with Some p => str_in (c_name p) seen | None => true end
+              && direct_parents_first M (c_name c :: seen) r
   end.
 Definition topo (M : cmodel) (order : list cls) : Prop :=
   (forall c, In c order <-> In c M) /\ NoDup (map c_name order) /\ parents_first M [] order = true.
